@@ -183,7 +183,7 @@ def decrypt_message(blob, recipient=None, passphrase=None):
 
 
 def encrypt_message(inner, alg, recipients=(), passphrases=(), sk=None, s2k=(3, 8, 96), fmt='new', partial=False, esk_plain_session=False,
-                    zero_lead_shared=False, pad40=False):
+                    zero_lead_shared=False, pad40=False, skesk_alg=None):
     """Independent encryption. recipients: list of dicts describing public keys:
        {'kind': 'rsa', 'keyid': b8, 'n': int, 'e': int} or {'kind': 'ecdh', 'keyid', 'oid', 'curve': name|'cv25519', 'point': bytes, 'kdf': (h, k), 'fpr': b20}.
     Returns (blob, log)."""
@@ -233,7 +233,9 @@ def encrypt_message(inner, alg, recipients=(), passphrases=(), sk=None, s2k=(3, 
     for pw in passphrases:
         spec, hid, c = s2k
         salt = os.urandom(8) if spec in (1, 3) else b''
-        key = s2k_derive(spec, hid, salt, c, pw, kl)
+        # the cipher of the SKESK packet (under which the session key is wrapped) may differ from the cipher of the data (RFC 4880 5.3)
+        walg = skesk_alg if (skesk_alg is not None and not (esk_plain_session and len(passphrases) == 1 and not recipients)) else alg
+        key = s2k_derive(spec, hid, salt, c, pw, SYM[walg][2])
         spec_bytes = bytes([spec, hid]) + salt + (bytes([c]) if spec == 3 else b'')
         if esk_plain_session and len(passphrases) == 1 and not recipients:
             # the S2K output IS the session key (no encrypted session key field)
@@ -243,7 +245,7 @@ def encrypt_message(inner, alg, recipients=(), passphrases=(), sk=None, s2k=(3, 
             log['esk'].append({'kind': 'skesk', 'wire': list(body), 's2k_key': list(key), 'm': []})
         else:
             m = bytes([alg]) + sk
-            body = bytes([4, alg]) + spec_bytes + cfb(alg, key, m, False)
+            body = bytes([4, walg]) + spec_bytes + cfb(walg, key, m, False)
             log['esk'].append({'kind': 'skesk', 'wire': list(body), 's2k_key': list(key), 'm': list(m)})
         out += build.pkt(3, body, fmt=fmt)
     prefix = os.urandom(bs)
